@@ -40,6 +40,7 @@ def plan(tier, seed):
               {"item": {"kind": "features"}, "seed": seed, "n": 10}]
     for nm in corpus.extra_names():
         shards.append({"item": {"kind": "extra", "name": nm}, "seed": seed, "n": 10, "each_first": True})
+        shards.append({"item": {"kind": "extra", "name": nm, "cmdline": "roots"}, "seed": seed, "n": 6, "each_first": False})
     for i in range(8 if tier == "quick" else 120):
         shards.append({"item": {"kind": "gen", "seed": seed * 100003 + 9000 + i,
                                 "opts": {"names": "hostile" if i % 4 == 3 else "keywords", "services": True}},
@@ -121,7 +122,7 @@ def run_shard(shard) -> Result:
     w0 = {"item": item}
     try:
         for cfg in CONFIGS:
-            b = Build(protos, cfg)
+            b = Build(protos, cfg, cmdline=item.get("cmdline", "all"))
             w = dict(w0, config=cfg)
             res.counters["variants"] += 1
             cfg_sig = cfg.replace("typing.", "")
